@@ -131,16 +131,62 @@ theorem send_congr (k k' : Kcp) (hm : k'.mss = k.mss) (hs : k'.stream = k.stream
   simp only [hm, hs, hq, apply_ite SendRes.ret, apply_ite SendRes.panic, apply_ite SendRes.k, apply_ite Kcp.snd_queue]
   exact ⟨trivial, trivial, trivial⟩
 
+theorem fresh_ite {c : Prop} [Decidable c] {x y : SendRes}
+    (hx : Fresh x.k.snd_queue) (hy : Fresh y.k.snd_queue) : Fresh (if c then x else y).k.snd_queue := by
+  split <;> assumption
+
+theorem fresh_append {l₁ l₂ : List Seg} (h₁ : Fresh l₁) (h₂ : Fresh l₂) : Fresh (l₁ ++ l₂) := by
+  intro s hs
+  rcases List.mem_append.mp hs with h | h
+  · exact h₁ s h
+  · exact h₂ s h
+
+theorem fresh_mkSegs (mss : Nat) (st : Bool) (c : Nat) (b : Bytes) : Fresh (mkSegs mss st c b) := by
+  induction c generalizing b with
+  | zero => intro s hs; simp only [mkSegs, List.not_mem_nil] at hs
+  | succ c ih =>
+    intro s hs
+    simp only [mkSegs, List.mem_cons] at hs
+    rcases hs with h | h
+    · rw [h]
+    · exact ih _ s h
+
+theorem fresh_setLast {l : List Seg} {s : Seg} (hl : Fresh l) (hs : s.xmit = 0) : Fresh (setLast l s) := by
+  intro x hx
+  simp only [setLast, List.mem_append, List.mem_cons, List.not_mem_nil, or_false] at hx
+  rcases hx with h | h
+  · exact hl x (List.dropLast_subset l h)
+  · rw [h]; exact hs
+
+theorem send_fresh (k : Kcp) (b : Bytes) (h : Fresh k.snd_queue) : Fresh (send k b).k.snd_queue := by
+  have hq1 : ∀ ext : Nat, Fresh (if ext > 0 then
+      match k.snd_queue.getLast? with
+      | some s => setLast k.snd_queue { s with data := s.data ++ b.take ext }
+      | none => k.snd_queue
+    else k.snd_queue) := by
+    intro ext
+    split
+    · split
+      · rename_i s hs
+        exact fresh_setLast h (h s (List.mem_of_getLast? hs))
+      · exact h
+    · exact h
+  unfold send
+  simp only []
+  repeat (first | exact h | exact hq1 _ | exact fresh_append (hq1 _) (fresh_mkSegs _ _ _ _) | apply fresh_ite)
+
 theorem send_sim {σ : Sigma} {k k' : Kcp} (h : Sim σ k k') (buffer : Bytes) :
     Sim σ (send k buffer).k (send k' buffer).k ∧ (send k' buffer).ret = (send k buffer).ret ∧
       (send k' buffer).panic = (send k buffer).panic := by
   obtain ⟨hr, hp, hq⟩ := send_congr k k' h.mss h.stream h.snd_queue buffer
   refine ⟨?_, hr, hp⟩
+  have hf := send_fresh k buffer h.fresh
   obtain ⟨q, e⟩ := send_frame k buffer
   obtain ⟨q', e'⟩ := send_frame k' buffer
   rw [e, e'] at hq
+  rw [e] at hf
   rw [e, e']
-  exact { h with snd_queue := hq }
+  exact { h with snd_queue := hq, fresh := hf }
 
 theorem heapInsert_shift (σ : Sigma) (s : Seg) (l : List Seg) :
     heapInsert (shRcv σ s) (l.map (shRcv σ)) = (heapInsert s l).map (shRcv σ) := by
